@@ -134,7 +134,8 @@ EmptyMeans == kind = "ops" =>
   LET tr == Run(ops) IN
   /\ TiEmpty(tr) = (\A k \in 1..Len(tr) : k = Len(tr) /\ tr[k].m = TiEOT)
   /\ TiClosed(TiCanonTrack(tr, 0)) /\ TiEmpty(TiCanonTrack(tr, 0)) = TiEmpty(tr)
-FormatLaw == /\ TiFormatAfterAdd(TiCtorFormat("new"), 1) = 0 /\ TiFormatAfterAdd(TiCtorFormat("new"), 2) = 1
+ASSUME FormatLaw ==
+             /\ TiFormatAfterAdd(TiCtorFormat("new"), 1) = 0 /\ TiFormatAfterAdd(TiCtorFormat("new"), 2) = 1
              /\ TiFormatAfterAdd(1, 3) = 1 /\ TiFormatAfterAdd(TiCtorFormat("smf1"), 1) = 1
              /\ TiFormatAfterAdd(TiCtorFormat("smf2"), 1) = 2 /\ TiFormatAfterAdd(TiCtorFormat("smf2"), 5) = 2
 =============================================================================
